@@ -280,6 +280,59 @@ func checkSeq(p seqP) *mc.Viol {
 		}
 		first[k] = fresh(sig)
 	}
+	// the caller keeps ONE public-key, blind and context buffer and changes them in place between
+	// calls; in between, a call with a public key that is not a point fails (legally): every call is
+	// judged against the reference for the bytes it was given
+	{
+		pubBuf, blBuf := fresh(A), fresh(blind)
+		ctxBuf := []byte("context kept in one caller-owned buffer")
+		Aref, _ := edref.Decompress(A)
+		want := func() []byte {
+			return edref.Compress(edref.Mul(refScalar(blBuf, ctxBuf), Aref))
+		}
+		step := func(what string) *mc.Viol {
+			var bk, un ed.PublicKey
+			var err, err2 error
+			if pn := mc.Catch(func() {
+				bk, err = ed.BlindPublicKeyWithContext(pubBuf, blBuf, ctxBuf)
+				if err == nil {
+					un, err2 = ed.UnblindPublicKeyWithContext(fresh(bk), blBuf, ctxBuf)
+				}
+			}); pn != "" {
+				return &mc.Viol{Sig: "BlindPublicKeyWithContext panics in a sequence of calls", What: what + ": " + pn}
+			}
+			if err != nil || err2 != nil {
+				return &mc.Viol{Sig: "BlindPublicKeyWithContext fails in a sequence of calls", What: fmt.Sprintf("%s: %v %v", what, err, err2)}
+			}
+			if !bytes.Equal(bk, want()) {
+				return &mc.Viol{Sig: "blinded key is not r*A for the blind and context given in this call (" + what + ")", What: fmt.Sprintf("seed=%s: got %x want %x", p.Seed, []byte(bk), want())}
+			}
+			if !bytes.Equal(un, A) {
+				return &mc.Viol{Sig: "UnblindPublicKeyWithContext does not invert blinding (" + what + ")", What: fmt.Sprintf("seed=%s", p.Seed)}
+			}
+			return nil
+		}
+		if v := step("first call"); v != nil {
+			return v
+		}
+		ctxBuf[len(ctxBuf)-1] ^= 0x01
+		if v := step("context changed in place after an earlier call"); v != nil {
+			return v
+		}
+		blBuf[7] ^= 0x40
+		if v := step("blind changed in place after an earlier call"); v != nil {
+			return v
+		}
+		for _, notAPoint := range [][]byte{edref.LE(big.NewInt(2), 32), bytes.Repeat([]byte{0xff}, 32)} {
+			var err error
+			_ = mc.Catch(func() { _, err = ed.BlindPublicKeyWithContext(ed.PublicKey(notAPoint), blBuf, ctxBuf) })
+			_ = mc.Catch(func() { _, err = ed.UnblindPublicKeyWithContext(ed.PublicKey(notAPoint), blBuf, ctxBuf) })
+			_ = err
+			if v := step("after a call that failed on a public key that is not a point"); v != nil {
+				return v
+			}
+		}
+	}
 	// the key object still signs like crypto/ed25519
 	var plain []byte
 	if pn := mc.Catch(func() { plain = ed.Sign(priv, msgBuf) }); pn != "" {
